@@ -2,6 +2,6 @@ SPECIFICATION Spec
 CONSTANTS
   MaxOps = 1
   OpSet = "all"
-  Atoms = "simple"
+  Atoms = "rich"
   Emit = TRUE
 INVARIANTS RoundTrip ParenOnlyAdds
